@@ -156,7 +156,12 @@ struct W1 {
     }
 
     // ------------------------------------------------------------------ C04
-    void before_internal_forces() { pre_internal.clear(); for (auto& c : S->cells()) pre_internal[c->get_id()] = {c->get_target_volume(), c->get_growth_rate()}; }
+    std::map<unsigned, double> tv_after;    // target volume right after the last growth step, per persistent id
+    void before_internal_forces() {
+        // "the target volume increases by growth_rate*dt per iteration": nothing else may change it between two growth steps
+        // (output, remeshing, failed divisions, removal of other cells); daughters carry new ids and start a new record
+        for (auto& c : S->cells()) { if (c->is_static()) continue; auto it = tv_after.find(c->get_id()); if (it != tv_after.end() && !bits_equal(it->second, c->get_target_volume())) { std::ostringstream d; d << "cell " << c->get_id() << " (iteration " << S->iteration() << "): target volume went from " << it->second << " after the previous growth step to " << c->get_target_volume() << " before this one, outside the growth law"; res.fail("C04", "target_volume_between_steps", d.str()); return; } }
+        pre_internal.clear(); for (auto& c : S->cells()) pre_internal[c->get_id()] = {c->get_target_volume(), c->get_growth_rate()}; }
     void after_internal_forces() {
         const double dt = T.params.time_step_;
         for (auto& cp : S->cells()) {
@@ -167,6 +172,7 @@ struct W1 {
             std::ostringstream who; who << "cell " << c.get_id() << " (iteration " << S->iteration() << ")";
             if (std::fabs(c.get_target_volume() - tv) > 1e-14 * std::fabs(tv) + 1e-300) { std::ostringstream d; d << who.str() << ": target volume " << c.get_target_volume() << " but law gives max(" << it->second.first << "+" << it->second.second << "*dt, min_vol)=" << tv; res.fail("C04", "target_volume", d.str()); return; }
             if (c.get_target_volume() < type->min_vol_) { res.fail("C04", "target_volume_floor", who.str() + ": target volume below the type's minimum volume"); return; }
+            tv_after[c.get_id()] = c.get_target_volume();
             CellView v = view_of(c); Geo g = geometry(v);
             double D = std::max({std::fabs(g.centroid_area.x), std::fabs(g.centroid_area.y), std::fabs(g.centroid_area.z)}), Ld = (g.bmax - g.bmin).norm();
             double relv = (1e-9 + 1e-15 * std::pow(1 + D / Ld, 3)) * std::max(1.0, 0.01 * Ld * Ld * Ld / std::max(g.volume, 1e-300));   // rounding of a volume sum scales with the extent, not with the (possibly tiny) volume
